@@ -282,10 +282,18 @@ class KMatrix(ModelItem):
         initial_concentration :
             The initial concentration.
         """
-        if np.sum(initial_concentration) != 1:
+        # the closed form of ``a_matrix_sequential`` holds for a chain that starts with all
+        # population in the first compartment: 1 -> 2 -> ... -> n -> ground state
+        initial_concentration = np.asarray(initial_concentration)
+        if (
+            initial_concentration.size == 0
+            or initial_concentration[0] != 1
+            or np.count_nonzero(initial_concentration[1:]) != 0
+        ):
             return False
         matrix = self.reduced(compartments)
-        return not any(
-            np.nonzero(matrix[:, i])[0].size != 1 or i != 0 and matrix[i, i - 1] == 0
-            for i in range(matrix.shape[1])
+        size = matrix.shape[1]
+        return all(
+            np.nonzero(matrix[:, i])[0].size == 1 and matrix[min(i + 1, size - 1), i] != 0
+            for i in range(size)
         )
